@@ -67,9 +67,13 @@ impl<'a> Ctx<'a> {
 				}
 			},
 		}
-		// W2
+		// W2 (messages the production dispatcher does not know yet - the option_simple_close pair, compiled in
+		// only under `--cfg simple_close` - are judged by their codec alone)
 		let mut framed = m.type_id().encode();
 		framed.extend_from_slice(&b);
+		if name == "closing_complete" || name == "closing_sig" {
+			self.rep.count("codec_only_messages_not_in_the_production_dispatcher");
+		} else {
 		match vcore::guarded(|| wire_decode(&framed)) {
 			Err(p) => self.violate(name, "W2-dispatch", "the type dispatcher panicked on a valid message", p, &framed),
 			Ok(Err((e, _))) => self.violate(name, "W2-dispatch", &format!("the type dispatcher rejects a valid message: {:?}", e), String::new(), &framed),
@@ -83,6 +87,7 @@ impl<'a> Ctx<'a> {
 					self.violate(name, "W2-dispatch", "the dispatcher left bytes of the message unread", format!("{}", d.bytes_left), &framed);
 				}
 			},
+		}
 		}
 		// W3: every strict prefix
 		let step = if b.len() > 600 { 1 + b.len() / 300 } else { 1 };
@@ -346,6 +351,8 @@ fn run_one(ctx: &mut Ctx, rng: &mut Rng) {
 	chk!("tx_abort", true, TxAbort { channel_id: g.cid(), data: g.bytes(1000) });
 	chk!("shutdown", true, Shutdown { channel_id: g.cid(), scriptpubkey: g.script() });
 	chk!("closing_signed", true, ClosingSigned { channel_id: g.cid(), fee_satoshis: g.u64b(), signature: g.sig(), fee_range: g.opt(|g| ClosingSignedFeeRange { min_fee_satoshis: g.u64b(), max_fee_satoshis: g.u64b() }) });
+	chk!("closing_complete", true, ClosingComplete { channel_id: g.cid(), closer_scriptpubkey: g.script(), closee_scriptpubkey: g.script(), fee_satoshis: g.u64b(), locktime: g.u32b(), closer_output_only: g.opt(|g| g.sig()), closee_output_only: g.opt(|g| g.sig()), closer_and_closee_outputs: g.opt(|g| g.sig()) });
+	chk!("closing_sig", true, ClosingSig { channel_id: g.cid(), closer_scriptpubkey: g.script(), closee_scriptpubkey: g.script(), fee_satoshis: g.u64b(), locktime: g.u32b(), closer_output_only: g.opt(|g| g.sig()), closee_output_only: g.opt(|g| g.sig()), closer_and_closee_outputs: g.opt(|g| g.sig()) });
 	chk!("start_batch", true, StartBatch { channel_id: g.cid(), batch_size: g.u16b(), message_type: g.opt(|g| g.u16b()) });
 	chk!("update_add_htlc", true, UpdateAddHTLC { channel_id: g.cid(), htlc_id: g.u64b(), amount_msat: g.u64b(), payment_hash: PaymentHash(g.rng.bytes()), cltv_expiry: g.u32b(), skimmed_fee_msat: g.opt(|g| g.u64b()), onion_routing_packet: g.onion_packet(), blinding_point: g.opt(|g| g.pk()), hold_htlc: g.opt(|_| ()), accountable: g.opt(|g| g.rng.chance(1, 2)) });
 	chk!("onion_message", false, OnionMessage { blinding_point: g.pk(), onion_routing_packet: lightning::onion_message::packet::Packet { version: 0, public_key: g.pk(), hop_data: { let n = *g.rng.pick(&[1300usize, 32768, 1, 100]); g.rng.vec(n) }, hmac: g.rng.bytes() } });
